@@ -1,8 +1,686 @@
 //! Environment stubs and state constructors shared by the port harnesses.
-use super::super::*;
-use super::super::state::{DelayState, PortState, SlaveState, SyncState};
+//!
+//! Generic instantiation verified by every port harness:
+//! `Port<'_, Running | InBmca, AcceptTwo, StubRng, RecClock, RecFilter, DepthCell>`.
+use core::cell::{Cell, UnsafeCell};
 
-/// A `PortState::Slave` with empty exchange slots (what BMCA creates).
+use super::super::state::{DelayState, PortState, SlaveState, SyncState};
+use super::super::*;
+use crate::{
+    bmc::acceptable_master::AcceptableMasterList,
+    config::{ClockIdentity, DelayMechanism, InstanceConfig, PtpMinorVersion, TimePropertiesDS},
+    datastructures::{
+        common::TimeInterval,
+        datasets::{InternalCurrentDS, InternalDefaultDS, InternalParentDS, PathTraceDS},
+    },
+    filters::FilterUpdate,
+    time::Interval,
+    verif_root::gen::*,
+};
+
+// ------------------------------------------------------------------------------------------
+// lock that detects nested acquisition (C17) and counts sections
+// ------------------------------------------------------------------------------------------
+
+pub(crate) struct DepthCell {
+    state: UnsafeCell<PtpInstanceState>,
+    depth: Cell<u32>,
+    pub(crate) ref_sections: Cell<u32>,
+    pub(crate) mut_sections: Cell<u32>,
+}
+
+impl DepthCell {
+    /// direct access for the harness itself (not counted)
+    pub(crate) fn peek(&self) -> &PtpInstanceState {
+        unsafe { &*self.state.get() }
+    }
+    pub(crate) fn poke(&self) -> &mut PtpInstanceState {
+        unsafe { &mut *self.state.get() }
+    }
+    pub(crate) fn is_free(&self) -> bool {
+        self.depth.get() == 0
+    }
+    pub(crate) fn reset_counts(&self) {
+        self.ref_sections.set(0);
+        self.mut_sections.set(0);
+    }
+}
+
+impl PtpInstanceStateMutex for DepthCell {
+    fn new(state: PtpInstanceState) -> Self {
+        DepthCell { state: UnsafeCell::new(state), depth: Cell::new(0), ref_sections: Cell::new(0), mut_sections: Cell::new(0) }
+    }
+
+    fn with_ref<R, F: FnOnce(&PtpInstanceState) -> R>(&self, f: F) -> R {
+        assert!(self.depth.get() == 0, "C17: instance state lock requested while already held (shared)");
+        self.depth.set(1);
+        let r = f(unsafe { &*self.state.get() });
+        self.depth.set(0);
+        self.ref_sections.set(self.ref_sections.get() + 1);
+        r
+    }
+
+    fn with_mut<R, F: FnOnce(&mut PtpInstanceState) -> R>(&self, f: F) -> R {
+        assert!(self.depth.get() == 0, "C17: instance state lock requested while already held (exclusive)");
+        self.depth.set(1);
+        let r = f(unsafe { &mut *self.state.get() });
+        self.depth.set(0);
+        self.mut_sections.set(self.mut_sections.get() + 1);
+        r
+    }
+}
+
+// ------------------------------------------------------------------------------------------
+// recording clock
+// ------------------------------------------------------------------------------------------
+
+pub(crate) struct RecClock {
+    pub now: Time,
+    pub ret: Time,
+    pub fail_freq: bool,
+    pub fail_step: bool,
+    pub n_now: Cell<u32>,
+    pub n_freq: u32,
+    pub last_freq: f64,
+    pub n_step: u32,
+    pub last_step: Duration,
+    pub n_props: u32,
+}
+
+impl RecClock {
+    /// times fixed, nothing fails
+    pub(crate) fn quiet() -> Self {
+        RecClock { now: Time::default(), ret: Time::default(), fail_freq: false, fail_step: false, n_now: Cell::new(0),
+                   n_freq: 0, last_freq: 0.0, n_step: 0, last_step: Duration::ZERO, n_props: 0 }
+    }
+    /// arbitrary returned times, arbitrary failures
+    pub(crate) fn any() -> Self {
+        RecClock { now: any_time(), ret: any_time(), fail_freq: kani::any(), fail_step: kani::any(), ..Self::quiet() }
+    }
+    pub(crate) fn commands(&self) -> u32 {
+        self.n_freq + self.n_step
+    }
+}
+
+impl Clock for RecClock {
+    type Error = ();
+    fn now(&self) -> Time {
+        self.n_now.set(self.n_now.get() + 1);
+        self.now
+    }
+    fn step_clock(&mut self, offset: Duration) -> Result<Time, ()> {
+        self.n_step += 1;
+        self.last_step = offset;
+        if self.fail_step { Err(()) } else { Ok(self.ret) }
+    }
+    fn set_frequency(&mut self, ppm: f64) -> Result<Time, ()> {
+        self.n_freq += 1;
+        self.last_freq = ppm;
+        if self.fail_freq { Err(()) } else { Ok(self.ret) }
+    }
+    fn set_properties(&mut self, _t: &TimePropertiesDS) -> Result<(), ()> {
+        self.n_props += 1;
+        Ok(())
+    }
+}
+
+// ------------------------------------------------------------------------------------------
+// recording filter
+// ------------------------------------------------------------------------------------------
+
+pub(crate) static mut DEMOBILIZED: u32 = 0;
+pub(crate) static mut FILTERS_CREATED: u32 = 0;
+
+pub(crate) fn demobilized() -> u32 {
+    unsafe { DEMOBILIZED }
+}
+
+#[derive(Clone, Copy)]
+pub(crate) struct RecFilterCfg {
+    pub ret_delay: Option<Duration>,
+    pub ret_update: bool,
+}
+
+pub(crate) struct RecFilter {
+    pub cfg: RecFilterCfg,
+    pub last: Option<Measurement>,
+    pub count: u32,
+    pub updates: u32,
+}
+
+impl Filter for RecFilter {
+    type Config = RecFilterCfg;
+    fn new(cfg: RecFilterCfg) -> Self {
+        unsafe { FILTERS_CREATED += 1 };
+        RecFilter { cfg, last: None, count: 0, updates: 0 }
+    }
+    fn measurement<C: Clock>(&mut self, m: Measurement, _c: &mut C) -> FilterUpdate {
+        self.last = Some(m);
+        self.count += 1;
+        FilterUpdate {
+            next_update: if self.cfg.ret_update { Some(core::time::Duration::from_secs(1)) } else { None },
+            mean_delay: self.cfg.ret_delay,
+        }
+    }
+    fn demobilize<C: Clock>(self, _c: &mut C) {
+        unsafe { DEMOBILIZED += 1 };
+    }
+    fn update<C: Clock>(&mut self, _c: &mut C) -> FilterUpdate {
+        self.updates += 1;
+        FilterUpdate {
+            next_update: if self.cfg.ret_update { Some(core::time::Duration::from_secs(1)) } else { None },
+            mean_delay: self.cfg.ret_delay,
+        }
+    }
+    fn current_estimates(&self) -> FilterEstimate {
+        FilterEstimate { offset_from_master: Duration::ZERO, mean_delay: Duration::ZERO }
+    }
+}
+
+// ------------------------------------------------------------------------------------------
+// rng, acceptable master list
+// ------------------------------------------------------------------------------------------
+
+pub(crate) struct StubRng(pub u64);
+
+impl rand::RngCore for StubRng {
+    fn next_u32(&mut self) -> u32 {
+        (self.0 >> 32) as u32
+    }
+    fn next_u64(&mut self) -> u64 {
+        self.0
+    }
+    fn fill_bytes(&mut self, dest: &mut [u8]) {
+        for b in dest.iter_mut() {
+            *b = self.0 as u8;
+        }
+    }
+    fn try_fill_bytes(&mut self, dest: &mut [u8]) -> Result<(), rand::Error> {
+        self.fill_bytes(dest);
+        Ok(())
+    }
+}
+
+/// Acceptable master list with (up to) two symbolic entries, or "accept all".
+#[derive(Clone, Copy)]
+pub(crate) struct AcceptTwo {
+    pub all: bool,
+    pub a: ClockIdentity,
+    pub b: ClockIdentity,
+}
+
+impl AcceptTwo {
+    pub(crate) fn everyone() -> Self {
+        AcceptTwo { all: true, a: ClockIdentity([0; 8]), b: ClockIdentity([0; 8]) }
+    }
+    pub(crate) fn any() -> Self {
+        AcceptTwo { all: kani::any(), a: any_clock_identity(), b: any_clock_identity() }
+    }
+}
+
+impl AcceptableMasterList for AcceptTwo {
+    fn is_acceptable(&self, identity: ClockIdentity) -> bool {
+        self.all || identity == self.a || identity == self.b
+    }
+}
+
+// ------------------------------------------------------------------------------------------
+// instance state
+// ------------------------------------------------------------------------------------------
+
+pub(crate) const OWN_CLOCK: ClockIdentity = ClockIdentity([0x10, 0x20, 0x30, 0x40, 0x50, 0x60, 0x70, 0x80]);
+
+/// The state `PtpInstance::new` builds for the given config (base case).
+pub(crate) fn fresh_state(slave_only: bool, path_trace: bool) -> DepthCell {
+    let default_ds = InternalDefaultDS::new(InstanceConfig {
+        clock_identity: OWN_CLOCK,
+        priority_1: 128,
+        priority_2: 128,
+        domain_number: 0,
+        slave_only,
+        sdo_id: Default::default(),
+        path_trace,
+        clock_quality: Default::default(),
+    });
+    DepthCell::new(PtpInstanceState {
+        default_ds,
+        current_ds: Default::default(),
+        parent_ds: InternalParentDS::new(default_ds),
+        path_trace_ds: PathTraceDS::new(path_trace),
+        time_properties_ds: Default::default(),
+    })
+}
+
+/// Arbitrary instance state: symbolic own attributes, domain, sdoId, slave-only flag, parent and
+/// time-properties data sets, stepsRemoved (Inv: <= 255); path trace list of `path_len` symbolic
+/// entries (concrete length, so array accesses stay concrete).
+pub(crate) fn any_state(path_len: usize) -> DepthCell {
+    let mut default_ds = InternalDefaultDS::new(InstanceConfig {
+        clock_identity: OWN_CLOCK,
+        priority_1: kani::any(),
+        priority_2: kani::any(),
+        domain_number: kani::any(),
+        slave_only: kani::any(),
+        sdo_id: crate::config::SdoId::try_from(kani::any::<u16>() & 0xfff).unwrap(),
+        path_trace: false,
+        clock_quality: any_quality(),
+    });
+    default_ds.number_ports = kani::any();
+    let steps: u16 = kani::any();
+    kani::assume(steps <= 255);
+    let mut path = PathTraceDS::new(kani::any());
+    let mut i = 0;
+    while i < path_len {
+        path.list.push(any_clock_identity());
+        i += 1;
+    }
+    DepthCell::new(PtpInstanceState {
+        default_ds,
+        current_ds: InternalCurrentDS { steps_removed: steps },
+        parent_ds: InternalParentDS {
+            parent_port_identity: any_port_identity(),
+            grandmaster_identity: any_clock_identity(),
+            grandmaster_clock_quality: any_quality(),
+            grandmaster_priority_1: kani::any(),
+            grandmaster_priority_2: kani::any(),
+        },
+        path_trace_ds: path,
+        time_properties_ds: any_time_properties(),
+    })
+}
+
+// ------------------------------------------------------------------------------------------
+// port construction (in place; no `Port::new` / `end_bmca` moves of the large struct)
+// ------------------------------------------------------------------------------------------
+
+pub(crate) type RPort<'a> = Port<'a, Running, AcceptTwo, StubRng, RecClock, RecFilter, DepthCell>;
+pub(crate) type BPort<'a> = Port<'a, InBmca, AcceptTwo, StubRng, RecClock, RecFilter, DepthCell>;
+
+#[derive(Clone, Copy)]
+pub(crate) struct PortCfg {
+    pub p2p: bool,
+    pub master_only: bool,
+    pub asymmetry: Duration,
+    pub receipt_timeout: u8,
+    pub minor: PtpMinorVersion,
+    pub port_number: u16,
+    pub accept: AcceptTwo,
+    pub rng: u64,
+    pub log_interval: i8,
+}
+
+impl PortCfg {
+    pub(crate) fn plain() -> Self {
+        PortCfg { p2p: false, master_only: false, asymmetry: Duration::ZERO, receipt_timeout: 3, minor: PtpMinorVersion::One,
+                  port_number: 1, accept: AcceptTwo::everyone(), rng: 0x8000_0000_0000_0000, log_interval: 0 }
+    }
+    /// symbolic delay mechanism, master-only flag, asymmetry (|a| < 2^63 * 2^-16 ns), receipt timeout, minor version,
+    /// port number >= 1, acceptable-master list; log interval and rng word concrete (float code paths)
+    pub(crate) fn any() -> Self {
+        let port_number: u16 = kani::any();
+        kani::assume(port_number >= 1);
+        PortCfg {
+            p2p: kani::any(),
+            master_only: kani::any(),
+            asymmetry: Duration::from(TimeInterval(fixed::types::I48F16::from_bits(kani::any()))),
+            receipt_timeout: kani::any(),
+            minor: if kani::any() { PtpMinorVersion::One } else { PtpMinorVersion::Zero },
+            port_number,
+            accept: AcceptTwo::any(),
+            ..Self::plain()
+        }
+    }
+    pub(crate) fn identity(&self) -> PortIdentity {
+        PortIdentity { clock_identity: OWN_CLOCK, port_number: self.port_number }
+    }
+    fn config(&self) -> PortConfig<()> {
+        let interval = Interval::from_log_2(self.log_interval);
+        PortConfig {
+            acceptable_master_list: (),
+            delay_mechanism: if self.p2p { DelayMechanism::P2P { interval } } else { DelayMechanism::E2E { interval } },
+            announce_interval: interval,
+            announce_receipt_timeout: self.receipt_timeout,
+            sync_interval: interval,
+            master_only: self.master_only,
+            delay_asymmetry: self.asymmetry,
+            minor_ptp_version: self.minor,
+        }
+    }
+}
+
+pub(crate) fn any_filter_cfg() -> RecFilterCfg {
+    RecFilterCfg { ret_delay: if kani::any() { Some(any_duration_bits(96)) } else { None }, ret_update: kani::any() }
+}
+
+fn announce_interval_ti(log: i8) -> TimeInterval {
+    // 2^log seconds as a TimeInterval, computed without floating point (log in -16..=16)
+    let ns: i64 = if log >= 0 { 1_000_000_000i64 << log } else { 1_000_000_000i64 >> (-log) };
+    TimeInterval(fixed::types::I48F16::from_num(ns))
+}
+
+/// A running port with empty foreign-master list and the given protocol state.
+pub(crate) fn mk_running<'a>(state: &'a DepthCell, cfg: PortCfg, clock: RecClock, fcfg: RecFilterCfg, port_state: PortState) -> RPort<'a> {
+    let pid = cfg.identity();
+    Port {
+        config: cfg.config(),
+        filter_config: fcfg,
+        clock,
+        port_identity: pid,
+        port_state,
+        instance_state: state,
+        bmca: Bmca::new(cfg.accept, announce_interval_ti(cfg.log_interval), pid),
+        packet_buffer: [0; MAX_DATA_LEN],
+        lifecycle: Running,
+        rng: StubRng(cfg.rng),
+        multiport_disable: None,
+        announce_seq_ids: SequenceIdGenerator::new(),
+        sync_seq_ids: SequenceIdGenerator::new(),
+        delay_seq_ids: SequenceIdGenerator::new(),
+        pdelay_seq_ids: SequenceIdGenerator::new(),
+        filter: RecFilter { cfg: fcfg, last: None, count: 0, updates: 0 },
+        mean_delay: None,
+        peer_delay_state: PeerDelayState::Empty,
+    }
+}
+
+/// Make the small dynamic fields of a port arbitrary (sequence generators, mean delay, multiport age).
+pub(crate) fn havoc_small<L>(p: &mut Port<'_, L, AcceptTwo, StubRng, RecClock, RecFilter, DepthCell>) {
+    p.announce_seq_ids = seq_gen(kani::any());
+    p.sync_seq_ids = seq_gen(kani::any());
+    p.delay_seq_ids = seq_gen(kani::any());
+    p.pdelay_seq_ids = seq_gen(kani::any());
+    p.mean_delay = if kani::any() { Some(any_duration_bits(96)) } else { None };
+    p.multiport_disable = if kani::any() { Some(any_duration_bits(64)) } else { None };
+}
+
+pub(crate) fn seq_gen(start: u16) -> SequenceIdGenerator {
+    let mut g = SequenceIdGenerator::new();
+    // `current` is private to port::sequence_id; advance by wrapping generation is not an option for a
+    // symbolic start, so rebuild through transmute-free means: the struct is a single u16.
+    unsafe { *(&mut g as *mut SequenceIdGenerator as *mut u16) = start };
+    g
+}
+
+pub(crate) fn seq_peek(g: &SequenceIdGenerator) -> u16 {
+    g.clone().generate()
+}
+
+/// A time as stored in an exchange slot: anything a wire timestamp plus/minus a correction can give
+/// (< 2^79 ns), with 32 fractional bits.
+pub(crate) fn any_slot_time() -> Time {
+    let bits: u128 = kani::any();
+    kani::assume(bits < (1u128 << (79 + 32)));
+    Time::from_fixed_nanos(fixed::types::U96F32::from_bits(bits))
+}
+
+pub(crate) fn any_opt_slot_time() -> Option<Time> {
+    if kani::any() { Some(any_slot_time()) } else { None }
+}
+
+/// Arbitrary slave state. Inv: no exchange slot is complete (a completed slot is consumed by the
+/// call that completes it).
+pub(crate) fn any_slave_state(remote: PortIdentity) -> SlaveState {
+    let sync_state = if kani::any() {
+        let s = any_opt_slot_time();
+        let r = any_opt_slot_time();
+        kani::assume(!(s.is_some() && r.is_some()));
+        SyncState::Measuring { id: kani::any(), send_time: s, recv_time: r }
+    } else {
+        SyncState::Empty
+    };
+    let delay_state = if kani::any() {
+        let s = any_opt_slot_time();
+        let r = any_opt_slot_time();
+        kani::assume(!(s.is_some() && r.is_some()));
+        DelayState::Measuring { id: kani::any(), send_time: s, recv_time: r }
+    } else {
+        DelayState::Empty
+    };
+    SlaveState {
+        remote_master: remote,
+        sync_state,
+        delay_state,
+        last_raw_sync_offset: if kani::any() { Some(any_duration_bits(96)) } else { None },
+    }
+}
+
+/// Arbitrary peer delay state. Inv: a `Measuring` record is not complete.
+pub(crate) fn any_peer_delay_state() -> PeerDelayState {
+    let k: u8 = kani::any();
+    if k == 0 {
+        PeerDelayState::Empty
+    } else if k == 1 {
+        PeerDelayState::PostMeasurement { id: kani::any(), responder_identity: any_port_identity() }
+    } else {
+        let responder_identity = if kani::any() { Some(any_port_identity()) } else { None };
+        let request_send_time = any_opt_slot_time();
+        let request_recv_time = any_opt_slot_time();
+        let response_send_time = any_opt_slot_time();
+        let response_recv_time = any_opt_slot_time();
+        kani::assume(!(responder_identity.is_some() && request_send_time.is_some() && request_recv_time.is_some()
+            && response_send_time.is_some() && response_recv_time.is_some()));
+        PeerDelayState::Measuring { id: kani::any(), responder_identity, request_send_time, request_recv_time,
+                                    response_send_time, response_recv_time }
+    }
+}
+
+pub(crate) fn peer_slot_complete(s: &PeerDelayState) -> bool {
+    matches!(s, PeerDelayState::Measuring { responder_identity: Some(_), request_send_time: Some(_), request_recv_time: Some(_),
+        response_send_time: Some(_), response_recv_time: Some(_), .. })
+}
+
+pub(crate) fn slave_slots_complete(s: &SlaveState) -> bool {
+    matches!(s.sync_state, SyncState::Measuring { send_time: Some(_), recv_time: Some(_), .. })
+        || matches!(s.delay_state, DelayState::Measuring { send_time: Some(_), recv_time: Some(_), .. })
+}
+
+/// Arbitrary protocol state of a port; `remote` is used when it is `Slave`.
+pub(crate) fn any_port_state(remote: PortIdentity) -> PortState {
+    let k: u8 = kani::any();
+    match k {
+        0 => PortState::Faulty,
+        1 => PortState::Listening,
+        2 => PortState::Master,
+        3 => PortState::Passive,
+        _ => PortState::Slave(any_slave_state(remote)),
+    }
+}
+
+pub(crate) fn state_code(s: &PortState) -> u8 {
+    match s {
+        PortState::Faulty => 0,
+        PortState::Listening => 1,
+        PortState::Master => 2,
+        PortState::Passive => 3,
+        PortState::Slave(_) => 4,
+    }
+}
+
+pub(crate) const ST_FAULTY: u8 = 0;
+pub(crate) const ST_LISTENING: u8 = 1;
+pub(crate) const ST_MASTER: u8 = 2;
+pub(crate) const ST_PASSIVE: u8 = 3;
+pub(crate) const ST_SLAVE: u8 = 4;
+
 pub(crate) fn mk_slave_state(remote: PortIdentity) -> PortState {
     PortState::Slave(SlaveState::new(remote))
+}
+
+// ------------------------------------------------------------------------------------------
+// action draining (never `for` over a PortActionIterator: three explicit next() calls)
+// ------------------------------------------------------------------------------------------
+
+#[derive(Clone, Copy, Default)]
+pub(crate) struct Drained {
+    pub n: u8,
+    pub send_event: u8,
+    pub send_general: u8,
+    pub reset_announce: u8,
+    pub reset_sync: u8,
+    pub reset_delay: u8,
+    pub reset_receipt: u8,
+    pub reset_filter: u8,
+    pub forward: u8,
+    pub overflow: bool,
+    /// first byte (low nibble = message type) and length of the (last) sent frame
+    pub event_type: u8,
+    pub event_len: usize,
+    pub event_link_local: bool,
+    pub general_type: u8,
+    pub general_len: usize,
+    pub general_link_local: bool,
+    pub dur_announce: core::time::Duration,
+    pub dur_sync: core::time::Duration,
+    pub dur_delay: core::time::Duration,
+    pub dur_receipt: core::time::Duration,
+}
+
+impl Drained {
+    pub(crate) fn none(&self) -> bool {
+        self.n == 0
+    }
+    pub(crate) fn sends(&self) -> u8 {
+        self.send_event + self.send_general
+    }
+}
+
+fn account(d: &mut Drained, a: PortAction<'_>) -> Option<TimestampContext> {
+    d.n += 1;
+    match a {
+        PortAction::SendEvent { context, data, link_local } => {
+            d.send_event += 1;
+            d.event_type = data[0] & 0x0f;
+            d.event_len = data.len();
+            d.event_link_local = link_local;
+            return Some(context);
+        }
+        PortAction::SendGeneral { data, link_local } => {
+            d.send_general += 1;
+            d.general_type = data[0] & 0x0f;
+            d.general_len = data.len();
+            d.general_link_local = link_local;
+        }
+        PortAction::ResetAnnounceTimer { duration } => { d.reset_announce += 1; d.dur_announce = duration; }
+        PortAction::ResetSyncTimer { duration } => { d.reset_sync += 1; d.dur_sync = duration; }
+        PortAction::ResetDelayRequestTimer { duration } => { d.reset_delay += 1; d.dur_delay = duration; }
+        PortAction::ResetAnnounceReceiptTimer { duration } => { d.reset_receipt += 1; d.dur_receipt = duration; }
+        PortAction::ResetFilterUpdateTimer { .. } => d.reset_filter += 1,
+        PortAction::ForwardTLV { .. } => d.forward += 1,
+    }
+    None
+}
+
+/// Drain at most three actions (MAX_ACTIONS is 2; a third would be a contract violation when no TLVs
+/// are attached). Copies the sent frames into `out_event` / `out_general` when given.
+pub(crate) fn drain(mut it: PortActionIterator<'_>) -> (Drained, Option<TimestampContext>) {
+    let mut d = Drained::default();
+    let mut ctx = None;
+    if let Some(a) = it.next() {
+        if let Some(c) = account(&mut d, a) { ctx = Some(c); }
+        if let Some(a) = it.next() {
+            if let Some(c) = account(&mut d, a) { ctx = Some(c); }
+            if let Some(a) = it.next() {
+                d.overflow = true;
+                let _ = account(&mut d, a);
+            }
+        }
+    }
+    core::mem::forget(it);
+    (d, ctx)
+}
+
+/// Same, and copy the frame of the (single) send action into `frame`; returns its length.
+pub(crate) fn drain_copy<const N: usize>(mut it: PortActionIterator<'_>, frame: &mut [u8; N]) -> (Drained, Option<TimestampContext>, usize) {
+    let mut d = Drained::default();
+    let mut ctx = None;
+    let mut len = 0usize;
+    let mut k = 0;
+    while k < 3 {
+        match it.next() {
+            None => break,
+            Some(a) => {
+                if k == 2 { d.overflow = true; }
+                match &a {
+                    PortAction::SendEvent { data, .. } | PortAction::SendGeneral { data, .. } => {
+                        len = data.len();
+                        let mut i = 0;
+                        while i < N {
+                            if i < data.len() { frame[i] = data[i]; }
+                            i += 1;
+                        }
+                    }
+                    _ => {}
+                }
+                if let Some(c) = account(&mut d, a) { ctx = Some(c); }
+            }
+        }
+        k += 1;
+    }
+    core::mem::forget(it);
+    (d, ctx, len)
+}
+
+// ------------------------------------------------------------------------------------------
+// observable state snapshot (C07 no-op comparisons)
+// ------------------------------------------------------------------------------------------
+
+#[derive(PartialEq, Eq, Clone, Copy)]
+pub(crate) struct Snapshot {
+    state_code: u8,
+    remote: PortIdentity,
+    sync_state: SyncState,
+    delay_state: DelayState,
+    last_raw: Option<Duration>,
+    peer: PeerDelayState,
+    mean_delay: Option<Duration>,
+    multiport: Option<Duration>,
+    seqs: [u16; 4],
+    filter_count: u32,
+    filter_updates: u32,
+    clock_cmds: u32,
+    clock_props: u32,
+    demobilized: u32,
+    filters_created: u32,
+    default_ds: InternalDefaultDS,
+    current_ds: InternalCurrentDS,
+    parent_ppi: PortIdentity,
+    parent_gm: ClockIdentity,
+    parent_q: crate::config::ClockQuality,
+    parent_p: [u8; 2],
+    tp: TimePropertiesDS,
+    path_len: usize,
+    path_enable: bool,
+    fm_len: usize,
+}
+
+pub(crate) fn snapshot<L>(p: &Port<'_, L, AcceptTwo, StubRng, RecClock, RecFilter, DepthCell>) -> Snapshot {
+    let s = p.instance_state.peek();
+    let (remote, sync_state, delay_state, last_raw) = match &p.port_state {
+        PortState::Slave(ss) => (ss.remote_master, ss.sync_state, ss.delay_state, ss.last_raw_sync_offset),
+        _ => (PortIdentity::default(), SyncState::Empty, DelayState::Empty, None),
+    };
+    Snapshot {
+        state_code: state_code(&p.port_state),
+        remote, sync_state, delay_state, last_raw,
+        peer: p.peer_delay_state,
+        mean_delay: p.mean_delay,
+        multiport: p.multiport_disable,
+        seqs: [seq_peek(&p.announce_seq_ids), seq_peek(&p.sync_seq_ids), seq_peek(&p.delay_seq_ids), seq_peek(&p.pdelay_seq_ids)],
+        filter_count: p.filter.count,
+        filter_updates: p.filter.updates,
+        clock_cmds: p.clock.commands(),
+        clock_props: p.clock.n_props,
+        demobilized: demobilized(),
+        filters_created: unsafe { FILTERS_CREATED },
+        default_ds: s.default_ds,
+        current_ds: s.current_ds,
+        parent_ppi: s.parent_ds.parent_port_identity,
+        parent_gm: s.parent_ds.grandmaster_identity,
+        parent_q: s.parent_ds.grandmaster_clock_quality,
+        parent_p: [s.parent_ds.grandmaster_priority_1, s.parent_ds.grandmaster_priority_2],
+        tp: s.time_properties_ds,
+        path_len: s.path_trace_ds.list.len(),
+        path_enable: s.path_trace_ds.enable,
+        fm_len: crate::bmc::bmca::verif_bmca::fm_len(&p.bmca),
+    }
 }
